@@ -139,10 +139,16 @@ def _compile(name, a, b):
             r.chunked = a
         return fr, fm
 
-    def f(r):
-        return _apply(r, name, a, b, True)
     if name in NOARG or name == "next_chunk":
         f = methodcaller(name)
+    elif name == "get_bytes" or (name in FIXED and b is None) or (name == "slice" and a is not None and b is None):
+        f = methodcaller(name, a)
+    elif name == "slice" and a is None and b is None:
+        f = methodcaller(name)
+    elif name == "slice" and a is None:
+        f = methodcaller(name, length=b)
+    else:
+        f = methodcaller(name, a, b)
     return f, f
 
 
@@ -276,20 +282,25 @@ def run_history(EoReader, data, ops, info=None):
             exp = ("exc", type(e).__name__)
             n_exc += 1
         where = f"step {i} op {[idx, name, a, b]} on reader {t}"
-        new_real = []
+        e_exc = type(exp) is tuple
+        if name == "slice" and not e_exc:
+            model.append(exp)
+            parents.append(t)
+        # pattern 0 is checked completely (value, new reader, every reader's state) before pattern 1,
+        # so "stays_within_data" is only reported when pattern 0 agreed with the model on this step
         for s, pool in enumerate(pools):
             try:
                 got = _apply(pool[t], name, a, b, True)
-            except Exception as e:  # noqa: BLE001
+            except Exception as e:  # noqa: BLE001 - any exception of the code under test is compared
                 got = ("exc", type(e).__name__)
-            e_exc, g_exc = type(exp) is tuple, type(got) is tuple
-            if e_exc or g_exc:
+            if e_exc or type(got) is tuple:
                 if exp != got:
                     raise direct(s, "exception_type", _show(exp), _show(got), where)
             elif name == "slice":
                 if not isinstance(got, EoReader):
                     raise direct(s, "returned_value", "<EoReader>", _show(got), where)
-                new_real.append(got)
+                pool.append(got)
+                guarded(s, _check_content, case, where + f" -> reader {len(pool) - 1}", got, model[-1])
             else:
                 if isinstance(exp, bytearray):
                     same = isinstance(got, (bytes, bytearray)) and bytes(got) == bytes(exp)
@@ -297,13 +308,6 @@ def run_history(EoReader, data, ops, info=None):
                     same = type(got) is type(exp) and got == exp
                 if not same:
                     raise direct(s, "returned_value", _show(exp), _show(got), where)
-        if new_real:
-            model.append(exp)
-            parents.append(t)
-            for s, pool in enumerate(pools):
-                pool.append(new_real[s])
-                guarded(s, _check_content, case, where + f" -> reader {len(model) - 1}", pool[-1], model[-1])
-        for s, pool in enumerate(pools):
             for j in range(len(model)):
                 guarded(s, _check_reader, case, where + f": state of reader {j}", pool[j], model[j])
         flags = _flags_after(flags, name, _size(name, a), exp, m, rem0)
@@ -482,7 +486,11 @@ class _RefAdapter(RefReader):
     BREAK = None
 
     def slice(self, index=None, length=None):
-        return type(self)(RefReader.slice(self, index, length).data)
+        sub = type(self)(RefReader.slice(self, index, length).data)
+        if self.BREAK == "peek":        # looks at the byte after the sub-range it was given
+            at = self.data.find(sub.data, min(len(self.data), index or 0)) + len(sub.data)
+            sub.after = self.data[at:at + 1]
+        return sub
 
     position = property(lambda self: self.pos)
 
@@ -490,6 +498,8 @@ class _RefAdapter(RefReader):
     def remaining(self):
         if self.BREAK == "no_min" and self.chunked:
             return self.brk - self.pos
+        if self.BREAK == "peek" and getattr(self, "after", b"") == b"\xff":
+            return RefReader.remaining.fget(self) + 1
         return RefReader.remaining.fget(self)
 
     @property
@@ -521,6 +531,11 @@ def selftest():
         except Violation:
             continue
         raise AssertionError(f"oracle accepted the broken reader {brk}")
+    try:        # a reader that is only wrong when the byte after its data is FF: sentinel clause
+        run_history(type("Peek", (_RefAdapter,), {"BREAK": "peek"}), b"\x01\x02", [[0, "get_byte", None, None]])
+        raise AssertionError("oracle accepted the peeking reader")
+    except Violation as v:
+        assert v.clause == "stays_within_data", v
     # the non-triviality bits
     info = {}
     run_history(faithful, bytes([1, 0xFF, 1]),
